@@ -558,7 +558,8 @@ def r4(ctx):
     # the state key identifies the ORIGINAL expression: text that went through sanitize_variable_names (non-injective: every non-word
     # character becomes `_`) must be mapped back through the alias table before it is used as an identity, as the parser's normaliser does
     spc = P.func("formulaic.parser.algos.sanitize_tokens.sanitize_python_code")
-    back_parser = any(isinstance(x, ast.While) and norm(x.test) == "aliases" and "expr.replace(alias" in norm(x) for x in ast.walk(spc.node))
+    back_parser = any(isinstance(x, ast.While) and norm(x.test) == "aliases" and ("expr.replace(alias" in norm(x) or ("re.sub(" in norm(x) and "re.escape(alias)" in norm(x)))
+                      for x in ast.walk(spc.node))
     ctx.check(back_parser, "C04.R4", "the parser's normaliser maps sanitised names back to the quoted originals", spc.where, ctx.construct(spc, text="alias back-substitution"),
               "sanitize_python_code must undo the aliasing before the text becomes a factor expression")
     uses_aliases_for_key = any(isinstance(x, (ast.For, ast.While)) and "aliases" in norm(getattr(x, "iter", getattr(x, "test", ast.Constant(0)))) and "name" in norm(x) and "replace" in norm(x)
